@@ -47,6 +47,35 @@ def run(chk, scratch):
             ex = r.aligned_exons()
             w.make_read(r.chrom, [ex[0]] + ex[2:], name=r.name, flag=256 | (r.flag & 16), truth=dict(r.truth, same_span_secondary=True))
             r.truth["same_span_primary"] = True
+        # pairs of reads with IDENTICAL alignment blocks of which one carries a soft-clipped polyA tail and one does not, at a gene whose two isoforms
+        # differ only downstream of the reads' end (the tail decides between them); in the one-file input the tailed read comes first, one
+        # partition puts the tail-less ones into the first file
+        from vlib.world import Gene as _G, Transcript as _T
+        for ci_, chrom_ in enumerate(w.chrom_order[:2]):
+            p_ = world2._free_pos(w, chrom_, 3000)
+            if p_ + 6000 > w.chrom_len(chrom_):
+                continue
+            st_ = "+-"[ci_ % 2]
+            if st_ == "+":
+                t1_ = [(p_ + 1, p_ + 200), (p_ + 1001, p_ + 1200), (p_ + 2001, p_ + 2500)]
+                t2_ = [(p_ + 1, p_ + 200), (p_ + 1001, p_ + 1200), (p_ + 2001, p_ + 2600), (p_ + 3001, p_ + 3300)]
+                blocks_ = [(p_ + 1, p_ + 200), (p_ + 1001, p_ + 1200), (p_ + 2001, p_ + 2490)]
+                tail_ = {"polya": 30, "flag": 0}
+            else:
+                t1_ = [(p_ + 801, p_ + 1300), (p_ + 2101, p_ + 2300), (p_ + 3101, p_ + 3300)]
+                t2_ = [(p_ + 1, p_ + 300), (p_ + 701, p_ + 1300), (p_ + 2101, p_ + 2300), (p_ + 3101, p_ + 3300)]
+                blocks_ = [(p_ + 811, p_ + 1300), (p_ + 2101, p_ + 2300), (p_ + 3101, p_ + 3300)]
+                tail_ = {"polyt": 30, "flag": 16}
+            g_ = _G("TWT%d" % (ci_ + 1), chrom_, st_)
+            g_.transcripts.append(_T(g_.id + ".t1", g_.id, chrom_, st_, t1_, True, "ends-early"))
+            g_.transcripts.append(_T(g_.id + ".t2", g_.id, chrom_, st_, t2_, True, "goes-on"))
+            for t_ in g_.transcripts:
+                for intr in t_.introns:
+                    w.plant_sites(chrom_, intr, st_)
+            w.genes.append(g_)
+            for j_ in range(3):
+                w.make_read(chrom_, blocks_, truth={"class": "twin-with-tail"}, **tail_)
+                w.make_read(chrom_, blocks_, flag=tail_["flag"], truth={"class": "twin-without-tail", "tailless_twin": True})
         pipeline.write_world(w, d)
         gtf = os.path.join(d, "a.gtf")
         with open(gtf, "rb") as f, gzip.open(os.path.join(d, "a.gtf.gz"), "wb") as g:
@@ -80,6 +109,7 @@ def run(chk, scratch):
         write_parts("random3", lambda r: rmap[r.name], 3)
         write_parts("bychrom", lambda r: w.chrom_order.index(r.chrom) % 2, 2)
         write_parts("twins-apart", lambda r: 1 if r.truth.get("twin") else 0, 2)
+        write_parts("tailless-first", lambda r: 0 if r.truth.get("tailless_twin") else 1, 2)
         write_parts("primary-last", lambda r: 1 if (r.truth.get("same_span_primary") and not r.flag & 256) else 0, 2)
         if thorough:
             rmap5 = {r.name: rng.randrange(5) for r in mapped}
